@@ -22,7 +22,7 @@ EXPLANATION = (
     'requester emits CANCEL the local producer is cancelled on that path; (g) one FIFO per stream: when requests can '
     'be diverted to the lease hold queue, no other frame of a requester reaches the send queue without passing the '
     'same diversion. Not decided: legality over all histories (a trace property).')
-EXPLANATION_ADDED = ('(h) nothing after the terminal frame: the request-response callback and the Rx adapters (done marking, cancel only when not done, request sent inside the cancellable task); MAX_REQUEST_N is 2^31-1; (i) none of the subscribers the library itself provides (awaitable collector, Rx adapters, helper subscribers) calls cancel() or request() on its subscription while it is handed the element that carries COMPLETE.')
+EXPLANATION_ADDED = ('(h) nothing after the terminal frame: the request-response callback and the Rx adapters (done marking, cancel only when not done, request sent inside the cancellable task); MAX_REQUEST_N is 2^31-1; (i) none of the subscribers the library itself provides (awaitable collector, Rx adapters, helper subscribers) calls cancel() or request() on its subscription while it is handed the element that carries COMPLETE; a completed generator-backed publisher does not start delivering again on a late REQUEST_N (shared C07.e), so no payload follows the own COMPLETE.')
 EXPLANATION = EXPLANATION.replace(' Not decided', ' ' + EXPLANATION_ADDED + ' Not decided', 1) \
     if ' Not decided' in EXPLANATION else EXPLANATION + ' ' + EXPLANATION_ADDED
 ASSUMPTIONS = COMMON_ASSUMPTIONS
@@ -430,5 +430,12 @@ def rule_j(ctx):
     rep.require('C08.i', 'library subscribers with a completion flag', n, 8)
 
 
+def rule_genpub(ctx):
+    """A completed generator-backed publisher does not start delivering again on a late request(n) (typestate by
+    re-entry, rules/genpublisher.py)."""
+    from .genpublisher import rule_completed_publisher_stays_completed
+    rule_completed_publisher_stays_completed(ctx, 'C07.e')
+
+
 RULES = [('C08.a', rule_a), ('C08.b', rule_b), ('C08.c', rule_c), ('C08.d', rule_d), ('C08.e', rule_e),
-         ('C08.f', rule_f), ('C08.g', rule_g), ('C05.a', rule_order), ('C13.a+C16.b', rule_h), ('C09.a+C20.d', rule_i), ('C08.i', rule_j)]
+         ('C08.f', rule_f), ('C08.g', rule_g), ('C05.a', rule_order), ('C13.a+C16.b', rule_h), ('C09.a+C20.d', rule_i), ('C08.i', rule_j), ('C07.e', rule_genpub)]
